@@ -124,6 +124,23 @@ func relayer(chain *ibctesting.TestChain) ibctesting.SenderAccount {
 	return ibctesting.SenderAccount{SenderPrivKey: chain.SenderPrivKey, SenderAccount: chain.SenderAccount}
 }
 
+// zeroInflation switches block rewards off on a chain (environment, not code under test): with rewards every later
+// delegation of an account would pay out an unpredictable amount to its withdraw address.
+func zeroInflation(chain *ibctesting.TestChain) {
+	mk := chain.GetSimApp().MintKeeper
+	p, err := mk.Params.Get(chain.GetContext())
+	if err != nil {
+		panic(err)
+	}
+	p.InflationMax, p.InflationMin, p.InflationRateChange = sdkmath.LegacyZeroDec(), sdkmath.LegacyZeroDec(), sdkmath.LegacyZeroDec()
+	if err := mk.Params.Set(chain.GetContext(), p); err != nil {
+		panic(err)
+	}
+	chain.Coordinator.CommitBlock(chain)
+	chain.Coordinator.CommitBlock(chain)
+	chain.Coordinator.CommitBlock(chain)
+}
+
 func learnNoise(chain *ibctesting.TestChain) *Noise {
 	n := newNoise()
 	var rounds [][]string
@@ -177,6 +194,7 @@ func NewICAWorld(t *testing.T) *ICAWorld {
 	w.B.App.GetIBCKeeper().ChannelKeeper.SetNextChannelSequence(w.B.GetContext(), bOffset)
 	w.setAllow("star")
 	w.coord.CommitBlock(w.A, w.B)
+	zeroInflation(w.B)
 	w.otherB = w.B.GetSimApp().BankKeeper.GetBalance(w.B.GetContext(), w.other, denom).Amount
 	w.noise["A"] = learnNoise(w.A)
 	w.noise["B"] = learnNoise(w.B)
@@ -476,6 +494,20 @@ func (w *ICAWorld) Exec(a Action) (res, ack, errStr string, diff []string) {
 	return res, ack, es, w.classifyDiff(cname, changed(pre, post), a)
 }
 
+// delegated returns the tokens an account has delegated to the validator.
+func delegated(chain *ibctesting.TestChain, acc sdk.AccAddress, val sdk.ValAddress) int64 {
+	sk := chain.GetSimApp().StakingKeeper
+	d, err := sk.GetDelegation(chain.GetContext(), acc, val)
+	if err != nil {
+		return 0
+	}
+	v, err := sk.GetValidator(chain.GetContext(), val)
+	if err != nil {
+		return -1
+	}
+	return v.TokensFromShares(d.Shares).RoundInt64()
+}
+
 // fundNew gives every interchain account that the host has just created its working balance.
 func (w *ICAWorld) fundNew() {
 	for _, o := range ownerNames {
@@ -752,9 +784,7 @@ func (w *ICAWorld) State() ICAState {
 		}
 		st.Bal[n] = b.Int64()
 		if n != "dest" {
-			if d, err := app.StakingKeeper.GetDelegation(ctx, acc, w.val); err == nil {
-				st.Del[n] = d.Shares.TruncateInt64()
-			}
+			st.Del[n] = delegated(w.B, acc, w.val)
 		}
 		if strings.HasPrefix(n, "ica:") {
 			wa, err := app.DistrKeeper.GetDelegatorWithdrawAddr(ctx, acc)
